@@ -34,13 +34,39 @@ fn accept_once(f_cur: f64, f_cand: f64, t: f64, seed: u64) -> Result<u32, (Strin
     pops.push(vec![tagged(2, Some(f_cand))]);
     st.insert(pops);
     st.insert(Random::new(seed));
+    // every fourth seed: the step runs inside a scope opened over a state in which another acceptance component with a
+    // temperature from the opposite regime has been initialised (SA used as the inner search of an outer SA): the inner
+    // one must work with its own temperature and leave the outer one alone
+    let under_twin = seed % 4 == 3;
+    let t_other = if t >= 1.0 { 1e-300 } else { 1e12 };
+    let mut inner_t = None;
     let r = catch(|| {
-        comp.init(&TagP, &mut st).map_err(|e| e.to_string())?;
-        comp.execute(&TagP, &mut st).map_err(|e| format!("{e:#}"))
+        if under_twin {
+            ExponentialAnnealingAcceptance::new::<TagP>(t_other).init(&TagP, &mut st).map_err(|e| e.to_string())?;
+            let child = st
+                .with_inner_state(|inner| {
+                    comp.init(&TagP, inner)?;
+                    comp.execute(&TagP, inner)
+                })
+                .map_err(|e| format!("{e:#}"))?;
+            inner_t = child.try_get_value::<Temperature>().ok();
+            Ok(())
+        } else {
+            comp.init(&TagP, &mut st).map_err(|e| e.to_string())?;
+            comp.execute(&TagP, &mut st).map_err(|e| format!("{e:#}"))
+        }
     });
     match r {
         Ok(Ok(())) => {}
         other => return Err(("acceptance:fails-on-valid-state".into(), format!("{other:?}"))),
+    }
+    if under_twin {
+        if inner_t.map(f64::to_bits) != Some(t.to_bits()) {
+            return Err(("acceptance:inside-a-scope:does-not-work-with-its-own-temperature".into(), format!("temperature state of the scope after the step: {inner_t:?}, constructed with {t}, enclosing scope holds {t_other}")));
+        }
+        if st.get_value::<Temperature>().to_bits() != t_other.to_bits() {
+            return Err(("acceptance:inside-a-scope:changes-the-enclosing-temperature".into(), format!("{}", st.get_value::<Temperature>())));
+        }
     }
     let pops = st.populations();
     if pops.len() != 2 || pops.current().len() != 1 {
@@ -54,7 +80,7 @@ fn accept_once(f_cur: f64, f_cand: f64, t: f64, seed: u64) -> Result<u32, (Strin
     if !((s.0 == 1 && s.1.to_bits() == f_cur.to_bits()) || (s.0 == 2 && s.1.to_bits() == f_cand.to_bits())) {
         return Err(("acceptance:survivor-is-neither-current-nor-candidate".into(), format!("{s:?}")));
     }
-    if st.get_value::<Temperature>().to_bits() != t.to_bits() {
+    if !under_twin && st.get_value::<Temperature>().to_bits() != t.to_bits() {
         return Err(("acceptance:changes-the-temperature".into(), format!("{}", st.get_value::<Temperature>())));
     }
     Ok(s.0)
